@@ -19,7 +19,7 @@ var c08Pool = []string{
 	"/", "/a", "/a/b", "/a/?b", "/a/?{o}", "/?a", "/?{r}", "/?a/b", "/a/?b/c", "/a//b", "//a", "/a/", "/{x}", "/{y}", "/{x}/{x}", "/{x}/{x: **}", "/{x: /a+/}-{x}", "/{x}/b/{x: /[0-9]+/}", "/{x}/{a: **}/b/{x}", "/r/{n: /[0-9]+/}/c/{n}", "/{x: /a+/}/{q: **}/{x}",
 	"/{a: **}/{b: **}/c", "/{a: **}/{b: **}", "/x/{a: **}", "/x/{b: **}", "/{a: **}/x", "/{b: **}/y", "/{a: **}/y", "/{a: **, capture: 2}/x", "/{**}", "/{q: /(/}", "/{q: /a)(b/}", "/{q: /[0-9/}/z",
 	"/{q: /(a|b)+/}/z", "/{q: /[0-9]+/}", "/{q: /[0-9]+/}/z", "/v{n: /[0-9]+/}", "/a/{p}/?{o}", "/a/b/?c", "/{x}-{z}", "/{x}.{x}",
-	"/x/{m: **}.json", "/x/v{m: **}",
+	"/x/{m: **}.json", "/x/v{m: **}", "/x/{c: **}/?r", "/{e: **}/?t",
 }
 
 type c08Seg struct {
@@ -130,13 +130,23 @@ func c08Rules(earlier [][]c08Seg, segs []c08Seg) string {
 			}
 		}
 		// two different match-alls at one position: same prefix, both in the middle or both at the end
-		for _, ea := range [][]c08Seg{e} {
-			for i := 0; i < len(ea) && i < len(segs); i++ {
-				if ea[i].text != segs[i].text {
-					if ea[i].all && segs[i].all && (i == len(ea)-1) == (i == last) {
-						return "two different match-alls share a position"
+		// (the short form of a route with an optional last segment counts as a route of its own)
+		variants := func(x []c08Seg) [][]c08Seg {
+			out := [][]c08Seg{x}
+			if len(x) > 1 && x[len(x)-1].optional {
+				out = append(out, x[:len(x)-1])
+			}
+			return out
+		}
+		for _, ea := range variants(e) {
+			for _, sb := range variants(segs) {
+				for i := 0; i < len(ea) && i < len(sb); i++ {
+					if ea[i].text != sb[i].text {
+						if ea[i].all && sb[i].all && (i == len(ea)-1) == (i == len(sb)-1) {
+							return "two different match-alls share a position"
+						}
+						break
 					}
-					break
 				}
 			}
 		}
